@@ -184,6 +184,10 @@ def compare_lfu(binary, cases, tag="lfu"):
             for c in chunk:
                 ops = []
                 for (op, h), rec in zip(c["ops"], impl[c["name"]]["ops"]):
+                    if rec.get("op") == "panic":
+                        # the model decides by itself whether this access panics: give it an admissible answer
+                        ops.append(("OInc %d true" if op == "inc" else "OEst %d true") % h)
+                        break
                     if op == "inc":
                         ops.append("OInc %d %s" % (h, "true" if rec["had"] else "false"))
                     else:
@@ -208,6 +212,10 @@ def compare_lfu(binary, cases, tag="lfu"):
                         mism.append(dict(case=c, index=i, component="tinylfu", model="(trace ended: %s)" % trace[-1:], impl=rec))
                         break
                     t = trace[i]
+                    if rec.get("op") == "panic":
+                        if t != [1]:
+                            mism.append(dict(case=c, index=i, component="sketch", model=t[:12], impl="panic"))
+                        break
                     if op == "inc":
                         want = [0, rec["incs"]] + [b for row in rec["rows"] for b in row]
                         if rec["incs"] == 0 and prev_incs + 1 >= c["counters"]:
@@ -242,6 +250,9 @@ def lfu_monitor(binary, cases, tag="lfumon"):
         window = {}
         incs = 0
         for i, ((op, h), rec) in enumerate(zip(c["ops"], impl[c["name"]]["ops"])):
+            if rec.get("op") == "panic":
+                fails.append(dict(case=c, index=i, what="the sketch panicked (index out of bounds) on a valid access", detail=h))
+                break
             if op == "inc":
                 incs += 1
                 window[h] = window.get(h, 0) + 1
